@@ -173,6 +173,9 @@ func mutateSquare(r *Rng, raws [][]byte) [][]byte {
 }
 
 // corruptIndexes rebuilds the PFB sequence of a square with altered share indexes / blob sizes.
+// forcedCorruption: when >= 0, the kind of corruption corruptIndexes applies to every wrapped PFB
+var forcedCorruption = -1
+
 func corruptIndexes(r *Rng, sq square.Square) [][]byte {
 	raws := copyShares(sq)
 	wpfbs, err := sq.WrappedPFBs()
@@ -188,7 +191,21 @@ func corruptIndexes(r *Rng, sq square.Square) [][]byte {
 		}
 		idx := append([]uint32{}, iw.ShareIndexes...)
 		inner := append([]byte{}, iw.Tx...)
-		switch r.Intn(6) {
+		kind := r.Intn(7)
+		if forcedCorruption >= 0 {
+			kind = forcedCorruption
+		}
+		switch kind {
+		case 6:
+			// a declared blob size of ZERO (a blob that needs no share) with its index at / one before / one
+			// past the END of the square (len(s) itself is not a valid index)
+			idx[0] = uint32(len(raws) - 1 + r.Intn(3))
+			if r.Bool(50) {
+				idx[0] = uint32(len(raws))
+			}
+			if len(inner) >= mockPFBExtraBytes+4 {
+				binary.BigEndian.PutUint32(inner[mockPFBExtraBytes:], 0)
+			}
 		case 5:
 			// index pointing at a compact sequence start (share 0 or the first PFB share) with a declared blob
 			// size just below / at / above what a sparse first share holds (474..479)
@@ -239,7 +256,12 @@ func genC16(c *Ctx) {
 			continue
 		}
 		var raws [][]byte
-		if r.Bool(35) {
+		if i%14 == 9 {
+			forcedCorruption = 6 // zero blob size, index at the end of the square
+			raws = corruptIndexes(r, sq)
+			forcedCorruption = -1
+			c.count("mut_pfb_zero_size_index_at_end")
+		} else if r.Bool(35) {
 			raws = corruptIndexes(r, sq)
 			c.count("mut_pfb_indexes")
 		} else {
@@ -390,8 +412,15 @@ func genC19(c *Ctx) {
 	r := c.rng
 	nss := blobNamespaces(r, 4)
 	// round trips
+	var reusedBlob share.Blob // ONE receiver decoded into again and again (version 1 then version 0, ...)
+	var reusedNs share.Namespace
 	for i := 0; i < 120*c.scale; i++ {
 		g := randBlob(r, nss, 2000)
+		if i%2 == 1 {
+			g.ver, g.signer = 0, nil
+		} else if i%4 == 0 {
+			g.ver, g.signer = 1, randSigner(r)
+		}
 		b := g.blob()
 		wit := map[string]any{"blob": fmt.Sprintf("v%d len %d", g.ver, len(g.data))}
 		enc, err := b.Marshal()
@@ -406,6 +435,13 @@ func genC19(c *Ctx) {
 			var back share.Blob
 			err := back.UnmarshalJSON(js)
 			c.check(err == nil && showBlob(&back) == showBlob(b), "Blob.UnmarshalJSON", "JSON round trip differs", wit)
+			// the same text decoded into a receiver that already holds the previous blob
+			err = json.Unmarshal(js, &reusedBlob)
+			c.check(err == nil && showBlob(&reusedBlob) == showBlob(b), "Blob.UnmarshalJSON", "decoding into a receiver that already holds another blob does not give the encoded blob", wit)
+			if nj, err := json.Marshal(b.Namespace()); err == nil {
+				err = json.Unmarshal(nj, &reusedNs)
+				c.check(err == nil && bytes.Equal(reusedNs.Bytes(), g.ns), "Namespace.UnmarshalJSON", "decoding into a used receiver differs", wit)
+			}
 			// field by field through a generic JSON object
 			var obj map[string]any
 			_ = json.Unmarshal(js, &obj)
